@@ -103,13 +103,29 @@ def lean_scan_forbidden():
 
 def prop_theorems(pid):
     """(fully qualified name, statement) of the theorems in Props/<pid>.lean"""
-    path = os.path.join(LEAN, "HecsModel", "Props", pid + ".lean")
-    if not os.path.exists(path):
+    paths = prop_files(pid)
+    if not paths:
         return []
+    res = []
+    for path in paths:
+        res += theorems_of(path)
+    return res
+
+
+def prop_files(pid):
+    """Props/<pid>.lean plus companion files Props/<pid><Suffix>.lean (suffix starts with a letter)"""
+    out = []
+    for f in sorted(glob.glob(os.path.join(LEAN, "HecsModel", "Props", pid + "*.lean"))):
+        rest = os.path.basename(f)[len(pid):-5]
+        if rest == "" or rest[0].isalpha():
+            out.append(f)
+    return out
+
+
+def theorems_of(path):
     src = strip_comments(open(path).read())
     res = []
     stack = []
-    pos = 0
     for m in re.finditer(r"^(namespace\s+(\S+)|end\s+(\S+)|theorem\s+([A-Za-z0-9_.'!?]+)([\s\S]*?):=)", src, re.M):
         if m.group(2):
             stack.append(m.group(2))
@@ -127,7 +143,8 @@ def lean_audit(pid, names):
     os.makedirs(TMP, exist_ok=True)
     f = os.path.join(TMP, f"audit_{pid}.lean")
     with open(f, "w") as fh:
-        fh.write(f"import HecsModel.Props.{pid}\n")
+        for pf in prop_files(pid):
+            fh.write(f"import HecsModel.Props.{os.path.basename(pf)[:-5]}\n")
         for n in names:
             fh.write(f"#print axioms {n}\n")
     rc, out = run(["lake", "env", "lean", f], cwd=LEAN, timeout=1800)
@@ -145,8 +162,9 @@ def proof_obligations(pid, thorough=False):
     """returns dict(ok, obligations, discharged, theorems, failures, checker_cmd, wall)"""
     t0 = time.time()
     gen = lean_generate()
-    mod = f"HecsModel.Props.{pid}"
-    targets = [mod, "hecs_judge"]
+    mods = [f"HecsModel.Props.{os.path.basename(pf)[:-5]}" for pf in prop_files(pid)] or [f"HecsModel.Props.{pid}"]
+    mod = mods[0]
+    targets = mods + ["hecs_judge"]
     rc, out, _ = lean_build(targets)
     thms = prop_theorems(pid)
     info = {"checker_cmd": "cd /verif/lean && lake build " + " ".join(targets) +
